@@ -321,7 +321,9 @@ fn has_demand_violation<T: LoadOps>(
     }
 
     // check dynamic load change
-    let change = demand.change();
+    // NOTE static delivery is loaded at the tour start and unloaded here: it does not lower the load of
+    // the activities after the pivot, so it should not compensate pickups of this demand
+    let change = demand.change() + demand.delivery.0;
     if change.is_not_empty() {
         let future: T = state.get_max_future_capacity_at(pivot_idx).copied().unwrap_or_default();
         if !capacity.can_fit(&(future + change)) {
